@@ -1456,6 +1456,17 @@ fn process_type(req: &ItemReq, opts: &Opts, file: &syn::File, uc: &BTreeMap<Stri
                 _ => {}
             }
             out.text = quote!(#s).to_string();
+            if opts.extra.contains_key("gen_cols_spec") {
+                // mechanical spec: every column of a HistoryVec has length n
+                if let syn::Fields::Named(n) = &s.fields {
+                    let nm = &s.ident;
+                    let fname = syn::Ident::new(&format!("{}_cols", nm), Span::call_site());
+                    let fs: Vec<&syn::Ident> = n.named.iter().map(|f| f.ident.as_ref().unwrap()).collect();
+                    let spec = quote!(pub open spec fn #fname(h: #nm, n: int) -> bool { true #(&& h.#fs.len() == n)* });
+                    out.text.push_str("\n// ===VXEXTRA===\n");
+                    out.text.push_str(&spec.to_string());
+                }
+            }
         }
         syn::Item::Enum(mut s) => {
             out.line_start = s.enum_token.span.start().line;
@@ -1478,6 +1489,47 @@ fn process_type(req: &ItemReq, opts: &Opts, file: &syn::File, uc: &BTreeMap<Stri
         out.error = Some(rw.errors.join("; "));
     }
     out.ok = out.error.is_none();
+    out
+}
+
+/// the struct as written, keeping only derive(HistoryMethods|HistoryVec) and #[has_state]:
+/// input for the real proc macros (R-DERIVE)
+fn process_struct_raw(req: &ItemReq, file: &syn::File) -> ItemOut {
+    let mut out = ItemOut { id: req.id.clone(), file: req.file.clone(), ..Default::default() };
+    fn walk<'f>(items: &'f [syn::Item], name: &str) -> Option<&'f syn::ItemStruct> {
+        for it in items {
+            match it {
+                syn::Item::Struct(s) if s.ident == name => return Some(s),
+                syn::Item::Mod(m) => {
+                    if let Some((_, items)) = &m.content {
+                        if let Some(f) = walk(items, name) {
+                            return Some(f);
+                        }
+                    }
+                }
+                _ => {}
+            }
+        }
+        None
+    }
+    match walk(&file.items, &req.name) {
+        None => out.error = Some(format!("struct not found: {}", req.name)),
+        Some(s0) => {
+            let mut s = s0.clone();
+            out.line_start = s.struct_token.span.start().line;
+            s.attrs = filter_derives(&s.attrs, &["HistoryMethods".to_string(), "HistoryVec".to_string()]);
+            s.vis = parse_quote!(pub);
+            if let syn::Fields::Named(n) = &mut s.fields {
+                out.line_end = n.brace_token.span.close().end().line;
+                for f in n.named.iter_mut() {
+                    f.attrs.retain(|a| a.path().is_ident("has_state"));
+                    f.vis = parse_quote!(pub);
+                }
+            }
+            out.text = quote!(#s).to_string();
+            out.ok = true;
+        }
+    }
     out
 }
 
@@ -1510,6 +1562,7 @@ fn main() {
                 match req.kind.as_str() {
                     "fn" | "method" | "traitfn" => process_fn(req, &opts, file, &uc, &consts),
                     "struct" | "enum" => process_type(req, &opts, file, &uc, &consts),
+                    "struct_raw" => process_struct_raw(req, file),
                     k => ItemOut { id: req.id.clone(), error: Some(format!("unknown kind {}", k)), ..Default::default() },
                 }
             }
